@@ -338,6 +338,22 @@ brk("c11-count-not-incremented", ["C11"], "src/backend/query_builder.rs",
     """                                self.prepare_simple_expr(&values[count], sql);
                                 count += 1;""",
     """                                self.prepare_simple_expr(&values[count], sql);""", "C11.R1:custom:tape-table")
+brk("c11-threshold-on-counter", ["C11"], "src/backend/query_builder.rs",
+    """                                self.prepare_simple_expr(&values[count], sql);
+                                count += 1;""",
+    """                                if count < 6 {
+                                    self.prepare_simple_expr(&values[count], sql);
+                                } else {
+                                    write!(sql, "{mark}").unwrap();
+                                }
+                                count += 1;""", "C11.R1:custom:scope", note="beyond every tabulated tape: only the small-scope rule can see it")
+brk("c17-threshold-long-strings", ["C17"], "src/backend/mod.rs",
+    """        let mut escape = false;
+        let mut output = String::new();
+        for c in string.chars() {""",
+    """        let mut escape = false;
+        let mut output = String::new();
+        for c in string.chars().take(4096) {""", "C17.R", note="truncation beyond the tabulated lengths")
 brk("c11-doubled-emits-two", ["C11"], "src/backend/query_builder.rs",
     """                                write!(sql, "{mark}").unwrap();
                                 tokenizer.next();""",
